@@ -204,7 +204,15 @@ class PVLParser(object):
         """Converts the string, *s* to a PVLModule."""
         self.doc = s
         tokens = self.lexer(s, g=self.grammar, d=self.decoder)
-        module = self.parse_module(tokens)
+        try:
+            module = self.parse_module(tokens)
+        except StopIteration:
+            # The text ended in the middle of an Aggregation Block
+            # (or of its Begin or End Aggregation Statement).
+            raise ParseError(
+                "Ran out of tokens before the PVL text was complete, "
+                "an Aggregation Block was probably left open."
+            )
         module.errors = sorted(self.errors)
         return module
 
